@@ -491,6 +491,9 @@ def _arm_watchdog(limit):
     signal.alarm(limit)
 
 
+FULL_TRACING = ("C01", "C02", "C03", "C09")
+
+
 def debug_flags_pass(ctx, prop_id):
     """the quick-tier streams of this check once more in a child process with the library's module-level
     debugging switched on (see debug_flags_on): the properties are claimed for the library, not for the
@@ -500,7 +503,9 @@ def debug_flags_pass(ctx, prop_id):
     fd, path = tempfile.mkstemp(prefix="verif-subpass-", suffix=".pkl")
     os.close(fd)
     # quick tier: flags only (cheap); thorough tier: full tracing (handlers + the library's formatter, ~10x slower)
-    level = "2" if ctx.tier == "thorough" else "1"
+    # full tracing is used where the quick streams are light enough for it and where it has been run clean on
+    # the unchanged tree (the codec checks); the state-machine checks keep the flags-only pass in both tiers
+    level = "2" if (ctx.tier == "thorough" and prop_id in FULL_TRACING) else "1"
     env = dict(os.environ, VERIF_DEBUGFLAGS=level, VERIF_SUBPASS=path, VERIF_TIER="quick")
     t0 = time.time()
     try:
